@@ -31,6 +31,12 @@ def gen_case(rng):
     args = None
     if form == "args_permuted":
         rng.shuffle(srcs)
+    if form in ("args", "args_permuted") and rng.random() < 0.12:
+        # the same file named twice: two sources with the same content; every one of its messages ties with its twin and
+        # the tie rule (argument order) decides
+        present = [s_ for s_ in srcs if s_.kind == "text"]
+        if present:
+            srcs.insert(rng.randrange(len(srcs) + 1), rng.choice(present))
     elif form in ("dir", "dir_plus_args"):
         # place the sources in a tree; s4 is given the directory
         sub = ("", "a/", "a/b/", "b/", "a.d/", "B/")
